@@ -32,8 +32,9 @@ Sch(c) == [stop |-> c.stop, lines |-> [k \in DOMAIN SchemeOf(c).lines |-> RawLin
 
 InitSt(e) == IF "consts" \in DOMAIN e
              THEN [sch |-> Sch(e.consts), client |-> (e.consts.role = "client"), pkt |-> 1,
+                   partial |-> ("partial" \in DOMAIN e.consts /\ e.consts.partial),    \* the transport takes a few bytes per write call: no shapes
                    buffering |-> FALSE, pending |-> <<>>, incall |-> FALSE, npk |-> 0, shapedpk |-> 0]
-             ELSE [sch |-> [stop |-> 0, lines |-> <<>>], client |-> TRUE, pkt |-> 1,
+             ELSE [sch |-> [stop |-> 0, lines |-> <<>>], client |-> TRUE, pkt |-> 1, partial |-> FALSE,
                    buffering |-> FALSE, pending |-> <<>>, incall |-> FALSE, npk |-> 0, shapedpk |-> 0]
 
 Ok(s)      == [ok |-> TRUE, st |-> s, why |-> "", dev |-> "", site |-> ""]
@@ -93,6 +94,9 @@ Packet(s, e) ==
         ELSE IF items = <<>>
              THEN IF SumCol(e.writes, 3) = 0 THEN Ok([s EXCEPT !.pkt = k + 1, !.pending = c.pending, !.npk = @ + 1])
                   ELSE No(s, "padding emitted in a packet that must not be padded (k >= stop, no line, or server)")
+        \* under back-pressure one record reaches the transport in several write calls: well-formedness and conservation
+        \* (above) are judged, the shape is not
+        ELSE IF s.partial THEN Ok([s EXCEPT !.pkt = k + 1, !.pending = c.pending, !.npk = @ + 1])
         ELSE IF r.ok /\ Terminal(r.rem, r.items)
              THEN Ok([s EXCEPT !.pkt = k + 1, !.pending = c.pending, !.npk = @ + 1, !.shapedpk = @ + 1])
              ELSE No(s, "write lengths of this packet are not permitted by its scheme line")
